@@ -45,6 +45,8 @@ def generate(tier, seed):
     for k, c in enumerate(cases):
         if c['kind'] == 'cube' and k % 8 == 2:
             c['ctor'] = 'wav'
+        if c['kind'] == 'cube' and k % 8 == 6:
+            c['mutate_sed'] = True
     return cases
 
 
@@ -134,6 +136,10 @@ def impl(case):
                 pkgcase.reorder_cube_columns(p)
             for o in ('nu', 'wav'):
                 r = SEDCube.read(p, order=o, memmap=case['memmap'])
+                if case.get('mutate_sed') and not case['memmap']:
+                    # an extracted SED is changed in place by its user; the cube (and what is extracted from it afterwards) must not change with it
+                    tmp = r.get_sed(case['names'][0])
+                    tmp.flux *= 2.0
                 seds = []
                 for nme in case['names']:
                     sd = r.get_sed(nme)
